@@ -11,7 +11,8 @@ static void v_havoc_ghosts(void) { GHOSTS(GHOST_HAVOC) }
 #endif
 #ifdef VNATIVE
 #define CANARY() ((void)0)
-#define VIN(T) T in = (T) VIN_INIT
+#include <string.h>
+#define VIN(T) T in; memset(&in, 0, sizeof(in)); VIN_ASSIGN
 #else
 #define CANARY() __CPROVER_assert(0, "VACUITY_CANARY reachable")
 /* bounded/lemma harness inputs: one nondet struct, so that a counterexample is one C initialiser */
